@@ -254,10 +254,24 @@ func (w *World) execNetOp(ctx context.Context, toks []string) (bool, error) {
 func (w *World) restart(ctx context.Context, p int, amount int) error {
 	pr := w.peers[p]
 	idBefore := pr.odb.Identity().ID
-	if s, ok := w.stores[p]; ok {
-		_ = s.Close()
-		w.net.closeTopic(p, w.dbAddr)
-		delete(w.stores, p)
+	w.saveCurrentDB()
+	// the whole instance goes down: every database this peer had open
+	type reopen struct {
+		k    int
+		kind string
+		addr string
+	}
+	var todo []reopen
+	for k, d := range w.dbs {
+		if s, ok := d.stores[p]; ok {
+			_ = s.Close()
+			w.net.closeTopic(p, d.addr)
+			delete(d.stores, p)
+			todo = append(todo, reopen{k, d.kind, d.addr})
+		} else if d.closed[p] {
+			delete(d.closed, p)
+			todo = append(todo, reopen{k, d.kind, d.addr})
+		}
 	}
 	_ = pr.odb.Close()
 	pr.identity = nil
@@ -265,38 +279,51 @@ func (w *World) restart(ctx context.Context, p int, amount int) error {
 		return err
 	}
 	sameID := pr.odb.Identity().ID == idBefore
-	var s iface.Store
-	var err error
-	opts := &iface.CreateDBOptions{}
-	switch w.kind {
-	case "kv":
-		s, err = pr.odb.KeyValue(ctx, w.dbAddr, opts)
-	case "doc":
-		s, err = pr.odb.Docs(ctx, w.dbAddr, opts)
-	case "log":
-		s, err = pr.odb.Log(ctx, w.dbAddr, opts)
+	if w.evc != nil {
+		delete(w.evc, p)
+		w.watchStoreEvents(p)
 	}
-	if err != nil {
-		w.printf("restarted %d openerr identity=%v\n", p, sameID)
-		return nil
-	}
-	w.stores[p] = s
-	w.registerStore(s)
-	lerr := func() (e error) {
-		defer func() {
-			if r := recover(); r != nil {
-				e = fmt.Errorf("panic: %v", strings.ReplaceAll(fmt.Sprint(r), "\n", " "))
-			}
-		}()
-		return s.Load(ctx, amount)
-	}()
 	res := "ok"
-	if lerr != nil {
-		res = "err"
-		if strings.HasPrefix(lerr.Error(), "panic") {
-			res = "panic"
+	for _, t := range todo {
+		var s iface.Store
+		var err error
+		opts := &iface.CreateDBOptions{}
+		switch t.kind {
+		case "kv":
+			s, err = pr.odb.KeyValue(ctx, t.addr, opts)
+		case "doc":
+			s, err = pr.odb.Docs(ctx, t.addr, opts)
+		case "log":
+			s, err = pr.odb.Log(ctx, t.addr, opts)
+		}
+		if err != nil {
+			if t.k == w.curDB {
+				res = "openerr"
+			}
+			continue
+		}
+		w.dbs[t.k].stores[p] = s
+		w.registerStore(s)
+		n := -1
+		if t.k == w.curDB {
+			n = amount
+		}
+		lerr := func() (e error) {
+			defer func() {
+				if r := recover(); r != nil {
+					e = fmt.Errorf("panic: %v", strings.ReplaceAll(fmt.Sprint(r), "\n", " "))
+				}
+			}()
+			return s.Load(ctx, n)
+		}()
+		if t.k == w.curDB && lerr != nil {
+			res = "err"
+			if strings.HasPrefix(lerr.Error(), "panic") {
+				res = "panic"
+			}
 		}
 	}
+	w.stores = w.dbs[w.curDB].stores
 	w.printf("restarted %d %s identity=%v\n", p, res, sameID)
 	return nil
 }
